@@ -32,6 +32,7 @@ func (a *Analyzer) doCall(fr *frame, site ssa.Instruction, c *ssa.CallCommon, st
 	if b, ok := c.Value.(*ssa.Builtin); ok {
 		outs := a.builtin(fr, site, b, c, st, args)
 		for _, o := range outs {
+			a.propagate(o.val, args...)
 			bind(o.st, o.val)
 		}
 		return statesOf(outs)
@@ -52,6 +53,11 @@ func (a *Analyzer) doCall(fr *frame, site ssa.Instruction, c *ssa.CallCommon, st
 				a.obl("E1.nil", fr.fn, site, "", false, func() string {
 					return fmt.Sprintf("method call on interface %s which may be nil (%s)\n%s", rv.Desc, rv.Why, st.Describe())
 				})
+			}
+		}
+		if u, ok := fnv.(*Unknown); ok && fn == nil && a.Impls != nil {
+			if outs, handled := a.invokeUnknown(fr, site, c, st, u, args, res); handled {
+				return outs
 			}
 		}
 		if fn == nil {
@@ -93,6 +99,15 @@ func (a *Analyzer) doCall(fr *frame, site ssa.Instruction, c *ssa.CallCommon, st
 			a.OnCall(a, st, ci, fn, callArgs)
 		}
 	}
+	if a.Opaque != nil && a.P.IsRepoFunc(fn) && a.Opaque(fn) {
+		// modular step: fn is verified separately for arbitrary arguments; here only its
+		// effect is over-approximated (results unknown, memory reachable from arguments unknown)
+		a.OpaqueUsed[fn]++
+		a.havocReach(st, callArgs)
+		a.havocReach(st, bindings)
+		bind(st, resultUnknown(a, fn.Signature, st, shortName(fn.String())))
+		return []*State{st}
+	}
 	if a.P.IsRepoFunc(fn) && fr.depth < a.MaxDepth && !a.inStack(fn) {
 		savedEnv, savedDefers := st.Env, st.Defers
 		a.rootStack = append(a.rootStack, &rootSet{env: savedEnv, defers: savedDefers})
@@ -118,6 +133,7 @@ func (a *Analyzer) doCall(fr *frame, site ssa.Instruction, c *ssa.CallCommon, st
 	}
 	outs := a.external(fr, site, fn.String(), fn.Signature, st, callArgs, fnv)
 	for _, o := range outs {
+		a.propagate(o.val, callArgs...)
 		bind(o.st, o.val)
 	}
 	return statesOf(outs)
@@ -569,22 +585,18 @@ func (a *Analyzer) callback(fr *frame, site ssa.Instruction, st *State, args []T
 		if !ok || !a.P.IsRepoFunc(cl.Fn) || a.inStack(cl.Fn) {
 			continue
 		}
-		havoc := func(s *State) {
-			for _, b := range cl.Bindings {
-				if p, ok := b.(*Ptr); ok && p.Obj != nil {
-					s.killPrefix(p.Obj.ID, "")
-					a.freshObjs[p.Obj.ID] = false // contents now unknown rather than zero
-					p.Obj.Fresh = false
-				}
-			}
-		}
-		havoc(st)
-		// fixpoint over heap locations modified by the callback itself
-		dropped := map[Loc]bool{}
-		for iter := 0; iter < 8; iter++ {
+		// The unseen caller can only act through the closure, so its effect is that of the
+		// closure body run any number of times: a fixpoint over the heap locations (and buffer
+		// contents) the body itself modifies.
+		dropped := map[Loc]Term{}
+		verDropped := map[int]bool{}
+		for iter := 0; iter < 12; iter++ {
 			S := st.Clone()
-			for l := range dropped {
-				delete(S.Heap, l)
+			for l, u := range dropped {
+				S.Heap[l] = u
+			}
+			for b := range verDropped {
+				S.Ver[b] = a.id()
 			}
 			var cargs []Term
 			for _, p := range cl.Fn.Params {
@@ -605,21 +617,155 @@ func (a *Analyzer) callback(fr *frame, site ssa.Instruction, st *State, args []T
 			for _, o := range outs {
 				for l, v := range before.Heap {
 					if ov, ok := o.Heap[l]; !ok || ov.TKey() != v.TKey() {
-						if !dropped[l] {
-							dropped[l] = true
+						if _, done := dropped[l]; !done {
+							dropped[l] = a.havocTerm(l, v)
 							changed = true
 						}
 					}
 				}
+				for l, ov := range o.Heap {
+					if _, ok := before.Heap[l]; !ok && a.freshObjs[l.Obj] && !strings.HasPrefix(l.Path, "[") && !strings.HasPrefix(l.Path, "?[") {
+						if _, done := dropped[l]; !done {
+							dropped[l] = a.havocTerm(l, ov)
+							changed = true
+						}
+					}
+				}
+				for b, v := range o.Ver {
+					if before.Ver[b] != v && !verDropped[b] {
+						verDropped[b] = true
+						changed = true
+					}
+				}
 			}
-			if !changed || iter == 7 {
+			if !changed || iter == 11 {
+				if changed {
+					a.Undecided = append(a.Undecided, fmt.Sprintf("%s: callback %s did not stabilise", shortFn(fr.fn), shortFn(cl.Fn)))
+				}
 				a.commit(sink)
 				break
 			}
 		}
-		for l := range dropped {
-			delete(st.Heap, l)
+		for l, u := range dropped {
+			st.Heap[l] = u
 		}
-		havoc(st)
+		for b := range verDropped {
+			st.Ver[b] = a.id()
+		}
 	}
+}
+
+// havocReach forgets everything stored in memory reachable from the given terms.
+func (a *Analyzer) havocReach(st *State, roots []Term) {
+	m := &marker{atoms: map[*Atom]bool{}, objs: map[int]bool{}, bases: map[int]bool{}}
+	for _, r := range roots {
+		m.term(r)
+	}
+	for changed := true; changed; {
+		changed = false
+		for loc, t := range st.Heap {
+			if m.objs[loc.Obj] && t != nil {
+				n0, n1 := len(m.objs), len(m.bases)
+				m.term(t)
+				if len(m.objs) != n0 || len(m.bases) != n1 {
+					changed = true
+				}
+			}
+		}
+	}
+	for loc := range st.Heap {
+		if m.objs[loc.Obj] {
+			delete(st.Heap, loc)
+		}
+	}
+	for id := range m.objs {
+		if a.freshObjs[id] {
+			a.freshObjs[id] = false
+		}
+	}
+	for id := range m.bases {
+		st.Ver[id] = a.id()
+	}
+}
+
+// invokeUnknown resolves a method call on an interface value of unknown dynamic type by
+// exploring every repo type that implements the interface (each on its own path, with an
+// arbitrary receiver) next to "some implementation outside the repository".
+func (a *Analyzer) invokeUnknown(fr *frame, site ssa.Instruction, c *ssa.CallCommon, st *State, u *Unknown, args []Term, res *ssa.Call) ([]*State, bool) {
+	impls := a.Impls(c.Value.Type())
+	if len(impls) == 0 || len(impls) > 4 {
+		return nil, false
+	}
+	run := func(s *State, t types.Type) []*State {
+		bind := func(x *State, v Term) {
+			if res != nil {
+				if v == nil {
+					v = a.unknownOf(res.Type(), res.Name(), x)
+				}
+				x.Env[res] = v
+			}
+		}
+		if t == nil {
+			name := "(" + c.Value.Type().String() + ")." + c.Method.Name()
+			outs := a.external(fr, site, name, c.Signature(), s, args, u)
+			for _, o := range outs {
+				bind(o.st, o.val)
+			}
+			return statesOf(outs)
+		}
+		fn := a.P.SSA.LookupMethod(t, c.Method.Pkg(), c.Method.Name())
+		if fn == nil || !a.P.IsRepoFunc(fn) || a.inStack(fn) || fr.depth >= a.MaxDepth {
+			if fn != nil {
+				a.Reach[fn] = true
+			}
+			outs := a.external(fr, site, "unresolved "+c.Method.Name(), c.Signature(), s, args, u)
+			for _, o := range outs {
+				bind(o.st, o.val)
+			}
+			return statesOf(outs)
+		}
+		key := fmt.Sprintf("%d/%s", u.ID, t.String())
+		recv, ok := a.ifaceRecv[key]
+		if !ok {
+			recv = a.unknownOf(t, u.Desc+".("+t.String()+")", s)
+			a.ifaceRecv[key] = recv
+		}
+		callArgs := append([]Term{recv}, args...)
+		savedEnv, savedDefers := s.Env, s.Defers
+		a.rootStack = append(a.rootStack, &rootSet{env: savedEnv, defers: savedDefers})
+		rets := a.runFunc(fn, s, callArgs, nil, fr.depth+1)
+		a.rootStack = a.rootStack[:len(a.rootStack)-1]
+		var outs []*State
+		for _, r := range rets {
+			env := make(map[ssa.Value]Term, len(savedEnv)+1)
+			for k, v := range savedEnv {
+				env[k] = v
+			}
+			r.st.Env = env
+			r.st.Defers = append([]*deferred(nil), savedDefers...)
+			bind(r.st, r.val)
+			outs = append(outs, r.st)
+		}
+		return outs
+	}
+	if t, seen := st.Dyn[u.ID]; seen {
+		return run(st, t), true
+	}
+	var outs []*State
+	alts := append([]types.Type{nil}, impls...)
+	for i, t := range alts {
+		s := st
+		if i < len(alts)-1 {
+			s = st.Clone()
+		}
+		if s.Dyn == nil {
+			s.Dyn = map[int]types.Type{}
+		}
+		s.Dyn[u.ID] = t
+		if t != nil {
+			s.note("dyn:" + shortName(t.String()))
+		}
+		outs = append(outs, run(s, t)...)
+	}
+	return outs, true
 }
